@@ -21,5 +21,13 @@ theorem emitted_function_index_exact_for_the_emitted_code (c : InCode) (pfs : Li
       some (c.importedFuncs + j) :=
   emitted_function_index_exact c.importedFuncs oc.funcs (emitCode_ids_nodup c pfs oc hp he) j hj
 
+/-- **every local function of the input is emitted exactly once**: the ids of the functions in the
+    output's code section are a permutation of the ids the parse handed out, one per function of the
+    input's code section — none dropped, none duplicated, whatever the size sort does -/
+theorem every_local_function_is_emitted_exactly_once (c : InCode) (pfs : List ParsedFunc) (oc : OutCode)
+    (hp : parseCode c = some pfs) (he : emitCode c pfs = some oc) :
+    (oc.funcs.map (·.id)).Perm ((List.range c.funcs.length).map (c.importedFuncs + ·)) :=
+  emitCode_ids_perm c pfs oc hp he
+
 end C19
 end Walrus
